@@ -650,19 +650,123 @@ def copies(rep, prog):
             rep.check(not missing and bool(emitted), 'C14.4', '%s.__copy__' % cname, 'writer emits %s, copy carries %s' % (sorted(emitted), sorted(carried)),
                       'a copied packet must carry every field its writer emits (a copy rebuilt from a derived view exports a truncated packet)',
                       where=cpm.where, expected=sorted(emitted), found=sorted(carried))
-    # new __init__ attributes must be classified
+    # attributes __init__ sets: the ones this rule knows are covered by the checks above; any other attribute is classified by
+    # analysis - certificate state (read by the serialiser / export / ordering / hash readers, and written from outside them)
+    # must be carried by the copy, a cache or a constant need not be
     known = {'PGPKey': {'_key', '_children', '_signatures', '_uids', '_sibling', '_self_verified', '_require_usage_flags'},
              'PGPUID': {'_uid', '_signatures'}, 'PGPSignature': {'_signature'}, 'SubPackets': {'_hashed_sp', '_unhashed_sp', '_hashed_raw'}}
     for cname, kn in known.items():
         c = prog.cls('pgpy.pgp' if cname != 'SubPackets' else 'pgpy.packet.fields', cname)
         ini = c.methods['__init__']
-        attrs = set(n.attr for n in ast.walk(ini.node) if isinstance(n, ast.Attribute) and isinstance(n.ctx, ast.Store) and isinstance(n.value, ast.Name) and
-                    n.value.id == ini.params[0])
-        new = attrs - kn
-        if new:
-            rep.error('C14.4', '%s.__init__ has unclassified attributes %s: cannot tell whether a copy must carry them' % (cname, sorted(new)))
-        else:
-            rep.ok('C14.4', '%s.__init__' % cname, 'attributes %s all classified' % sorted(attrs))
+        attrs = _stored_attrs(ini)
+        new = sorted(attrs - kn)
+        if not new:
+            rep.ok('C14.4', '%s.__init__' % cname, 'attributes %s all covered' % sorted(attrs))
+            continue
+        readers, reads = _reader_closure(c)
+        cpf = c.find_method('__copy__')
+        for a in new:
+            writes = _state_writes(prog, c, a, ini, readers)
+            if a not in reads or not writes:
+                why = 'not read by %s' % '/'.join(sorted(READER_ROOTS & {f.name for f in readers})) if a not in reads else \
+                    'only filled by its own readers or with constants (a cache / constant: a copy recomputes it)'
+                rep.ok('C14.4', '%s.__init__' % cname, 'new attribute %s is not certificate state: %s' % (a, why))
+                continue
+            carried = cpf is not None
+            detail = []
+            if cpf is not None:
+                cme = cpf.params[0]
+                for s_ in Interp(prog, Scenario(inline=noinline)).run(cpf):
+                    if s_.raised is not None or s_.ret is None:
+                        continue
+                    root = _root(render(s_.ret))
+                    got = [v for p_, v, l, _ in s_.stores if '.' in p_ and p_.rsplit('.', 1)[1] == a and _root(p_.rsplit('.', 1)[0]) == root and
+                           re.search(r'(?<![\w.])%s\.%s(?![\w])' % (re.escape(cme), re.escape(a)), v)]
+                    detail.append(got)
+                    carried = carried and bool(got)
+            rep.check(carried, 'C14.4', '%s.__copy__' % cname, 'new attribute %s (read by the export / ordering readers, written by %s): carried %s' % (
+                      a, sorted(writes), detail),
+                      'an attribute that the serialiser / ordering / hash input reads and that is set from outside them is certificate state: '
+                      'a copy must carry it', where=(cpf or ini).where, expected='<copy>.%s = ... self.%s ...' % (a, a), found=detail)
+
+
+READER_ROOTS = {'__bytearray__', '__hashbytearray__', '__unhashbytearray__', '__lt__', '__gt__', '__le__', '__ge__', '__eq__', '__hash__', 'hashdata',
+                '__iter__', '__len__', '__getitem__', '__contains__', '__sig__', '__str__'}
+
+
+def _stored_attrs(fn):
+    me = fn.params[0] if fn.params else None
+    return set(n.attr for n in ast.walk(fn.node) if isinstance(n, ast.Attribute) and isinstance(n.ctx, ast.Store) and isinstance(n.value, ast.Name) and
+               n.value.id == me)
+
+
+def _member(c, name):
+    """The function behind an attribute name of the class: method, plain property getter or sdproperty getter."""
+    f = c.find_method(name)
+    if f is not None:
+        return f
+    pp = c.find_plain_prop(name)
+    if pp and pp.get('get') is not None:
+        return pp['get']
+    sp = c.find_prop(name)
+    return sp.getter if sp is not None else None
+
+
+def _reader_closure(c):
+    """(functions, attributes read): everything the serialiser / export / ordering / hash-input readers of the class read on the
+    receiver, transitively through the methods and properties of the class they use."""
+    fns, reads, todo = [], set(), [f for f in (_member(c, r) for r in sorted(READER_ROOTS)) if f is not None]
+    while todo:
+        f = todo.pop()
+        if any(f is g for g in fns):
+            continue
+        fns.append(f)
+        for a in _self_reads(f):
+            reads.add(a)
+            g = _member(c, a)
+            if g is not None and not any(g is h for h in fns):
+                todo.append(g)
+    return fns, reads
+
+
+def _is_constant_expr(v):
+    if v is None:
+        return False
+    if isinstance(v, ast.Constant):
+        return True
+    if isinstance(v, (ast.List, ast.Tuple, ast.Set)) and not v.elts:
+        return True
+    if isinstance(v, ast.Dict) and not v.keys:
+        return True
+    if isinstance(v, ast.UnaryOp) and isinstance(v.operand, ast.Constant):
+        return True
+    if isinstance(v, ast.Call) and not v.args and not v.keywords:
+        return True                     # a fresh empty object
+    return False
+
+
+def _state_writes(prog, c, attr, ini, readers):
+    """Where the attribute receives a value that is not a constant and not computed by one of its own readers: qualnames."""
+    out = set()
+    for fn in prog.all_functions():
+        if any(fn is r or fn.node is r.node for r in readers):
+            continue                    # what a reader stores is derived from what it reads (memo / cache)
+        for n in ast.walk(fn.node):
+            tgt, val = None, None
+            if isinstance(n, ast.Assign):
+                tgt, val = n.targets, n.value
+            elif isinstance(n, ast.AugAssign):
+                tgt, val = [n.target], None
+            elif isinstance(n, ast.AnnAssign):
+                tgt, val = [n.target], n.value
+            if not tgt:
+                continue
+            for t in tgt:
+                for x in ast.walk(t):
+                    if isinstance(x, ast.Attribute) and isinstance(x.ctx, ast.Store) and x.attr == attr:
+                        if isinstance(n, ast.AugAssign) or not _is_constant_expr(val):
+                            out.add(fn.qualname)
+    return out
 
 
 def _typed(fn, clsname):
